@@ -14,7 +14,11 @@ executed in LOCK-STEP through three drivers and every step is compared.
      (two harness-registered schemas parent > child, one installed schema), issued on the
      container or on a sub-group with relative paths; patch boundaries
      (``commit_patch(); create_patch()``) and close/reopen points at random positions on the
-     IH5 side only.  Per step: result class (ok / refused), the full user-visible view (tree,
+     IH5 side only; reopen also THROUGH the container's own description of itself on every driver
+     (``metador.driver(metador.source, mode)``, ``SimpleContainerProvider``: read-only view after
+     close, then writable reopen) and read-only second views opened from it while the first
+     container stays open (IH5: between commit_patch and create_patch); the SOURCE values differ
+     by design, the view of the container reopened from them must agree.  Per step: result class (ok / refused), the full user-visible view (tree,
      dataset values, attributes), metadata objects as JSON per node per schema, query result
      sets (container level and group level, by schema without and with versions), schemas in
      use.
@@ -1121,7 +1125,8 @@ def run(ctx: vlib.Ctx):
     cov["rule"] = ("(A) container histories: fixed patterns + random histories from a mirror-tree-biased generator over a "
                    "per-history alphabet of 3-6 keys (printable ASCII without '@' and '/'), every operation issued on the container "
                    "or (about half) on an existing group of depth 1-3 as receiver with relative (also multi-segment), absolute "
-                   "and node-object arguments; listings/visit/in/get/[] through every group as receiver, boundaries and reopen points at random positions, executed in "
+                   "and node-object arguments; listings/visit/in/get/[] through groups as receivers; reopen by name, through "
+                   "metador.driver(metador.source) / SimpleContainerProvider, read-only second views, boundaries and reopen points at random positions, executed in "
                    "lock-step on h5py.File / IH5Record / IH5MFRecord through MetadorContainer; counted: successful operations "
                    "after the first boundary; (B) protocol histories with interleaved reads (existing, missing, below-dataset "
                    "paths) and conditional requests, each request on the root or on a group receiver (relative / absolute / "
